@@ -37,6 +37,17 @@ var Shapes = map[string][]string{
 	"two-wallets":     {"x.pv.200000000.0", "d", "x.pv.500000000.0.B", "d", "x.ab", "d"},
 	"many-small":      {"x.pm.40.1000000", "d", "x.pv.100000000.1", "d"},
 	"empty":           {},
+	// added after the first round (cheap): more maturity / lock / history variety
+	"dust-and-big":    {"x.pv.1000.0", "d", "x.pv.900000000.1", "d"},
+	"reorged-away":    {"x.pv.300000000.0", "d", "x.pv.200000000.1", "d", "r.1.E", "d"},
+	"staking-matured": {"x.st", "d", "x.e", "d", "x.e", "d", "x.e", "d", "x.pv.100000000.0", "d"},
+	"binding-new":     {"x.e", "d", "x.e", "d", "x.bn", "d", "x.pv.150000000.1", "d"},
+	"restarted":       {"x.pv.300000000.0", "d", "x.pv.100000000.1", "d", "z"},
+	"after-spend":     {"x.pv.400000000.0", "d", "x.sa", "d", "x.pv.70000000.1", "d"},
+	"top-k-700":       {"x.pm.700.300000", "d", "x.pv.100000000.1", "d"},
+	// two outputs of ONE transaction to different addresses with different values: spends
+	// take two inputs from the same previous transaction
+	"same-tx-two-outs": {"x.p2.300000000.0.200000000.1", "d"},
 }
 
 type Opts struct{}
@@ -409,7 +420,10 @@ func (r *run) manual() {
 		}
 	}
 	if spent != nil {
-		sets = append(sets, inset{"already spent coin", []*world.Coin{spent}, true})
+		// C02 requires "unspent" only of automatic selection: an explicit input that a
+		// confirmed transaction already spent may be refused or built; if built, every other
+		// clause (ownership, value conservation, change, fee) must hold
+		sets = append(sets, inset{"already spent coin (open: may be refused)", []*world.Coin{spent}, false})
 	}
 	for _, st := range sets {
 		var sum int64
@@ -438,7 +452,7 @@ func (r *run) manual() {
 						if err != nil {
 							r.fail++
 							r.outc["manual-err:"+err.Error()]++
-							if !st.bad && a1 <= sum/2 {
+							if !st.bad && a1 <= sum/2 && !strings.Contains(st.name, "(open") {
 								r.bad("%s failed (%v) although the inputs are own unspent coins worth %d", what, err, sum)
 							}
 							continue
@@ -457,6 +471,23 @@ func (r *run) manual() {
 						}
 						if len(tx.TxIn) != len(ins) {
 							r.bad("%s: built %d inputs for %d requested", what, len(tx.TxIn), len(ins))
+						}
+						if strings.Contains(st.name, "(open") {
+							// the reference resolves unspent coins only: check what C02 states for any
+							// built transaction directly - exactly the named inputs, value conserved
+							var outv int64
+							for _, o := range tx.TxOut {
+								outv += o.Value
+							}
+							for k, in := range tx.TxIn {
+								if k < len(st.ins) && in.PreviousOutPoint != st.ins[k].OP {
+									r.bad("%s: input %d is %v, not the requested %v", what, k, in.PreviousOutPoint, st.ins[k].OP)
+								}
+							}
+							if sum-outv != fee.IntValue() {
+								r.bad("%s: inputs-outputs=%d but the reported fee is %d", what, sum-outv, fee.IntValue())
+							}
+							continue
 						}
 						r.checkBuilt(what, tx, fee, req, 0, "", ch, false, nil, subB, lt, nil)
 					}
@@ -510,7 +541,10 @@ func (r *run) sign() {
 		}
 	}
 	flags := []string{"ALL", "NONE", "SINGLE", "ALL|ANYONECANPAY", "NONE|ANYONECANPAY", "SINGLE|ANYONECANPAY"}
-	wrong := []string{"", world.PassB, "publicpassVerif1", world.PassA + "x", world.PassA[:len(world.PassA)-1], strings.ToUpper(world.PassA), "privpassA2"}
+	wrong := []string{"", world.PassB, "publicpassVerif1", world.PassA + "x", world.PassA[:len(world.PassA)-1], strings.ToUpper(world.PassA), "privpassA2",
+		" " + world.PassA, world.PassA + " ", world.PassA + "\n", "\t" + world.PassA, world.PassA + "\r\n", world.PassA + world.PassA}
+	// (the right passphrase followed by NUL bytes is NOT in the family: HMAC zero-pads its key,
+	// so PBKDF2/scrypt derive the same key from both - a property of the KDF, not of the wallet)
 	for ti, tx := range txs {
 		for fi, flag := range flags {
 			r.n++
